@@ -159,7 +159,9 @@ impl C19DnsSmoke {
         names.truncate(6);
         // an address that swallows packets costs the server's whole back-off (about 10 s) per
         // recursive question: ask fewer of them
-        let black_hole = c.routes.iter().flatten().any(|r| r.servers == 4 && r.kind != 2);
+        // (an address nobody listens on behaves the same in the rig: no ICMP error reaches the
+        // forwarder's sockets, it retransmits with its full back-off)
+        let black_hole = c.routes.iter().flatten().any(|r| (r.servers == 4 || r.servers == 3) && r.kind != 2);
         if black_hole {
             out.class("upstream-swallows-packets");
             names.truncate(2);
@@ -179,12 +181,15 @@ impl C19DnsSmoke {
                 let bytes = dns::encode(&q, dns::Compress::Off);
                 // the exchange runs aside so that a panic line in the server log ends the wait at
                 // once (a panicked task never answers; waiting out the timeout only costs time)
+                // the forwarder's own back-off (0.8 s, then x1.5..2.5 per retransmission, four
+                // transmissions) ends between 6.5 s and 20.3 s after the query
+                let wait = Duration::from_secs(if black_hole { 40 } else { 15 });
                 let (tx, rx) = std::sync::mpsc::channel();
                 std::thread::spawn(move || {
                     let r = if tcp {
-                        tcp_exchange_linger(None, dst, &bytes, &[], Duration::from_secs(15), Duration::from_millis(10))
+                        tcp_exchange_linger(None, dst, &bytes, &[], wait, Duration::from_millis(10))
                     } else {
-                        udp_exchange(src, dst, &bytes, Duration::from_secs(15), Duration::from_millis(10))
+                        udp_exchange(src, dst, &bytes, wait, Duration::from_millis(10))
                     };
                     let _ = tx.send(r);
                 });
@@ -233,7 +238,7 @@ impl C19DnsSmoke {
                     out.fail(
                         "serve:dns-no-response",
                         format!(
-                            "DNS query for {} (rd={}, {}) with an accepted configuration got no response within 15 s",
+                            "DNS query for {} (rd={}, {}) with an accepted configuration got no response within the waiting time (15 s; 40 s where the upstream never answers)",
                             String::from_utf8_lossy(&n.join(&b"."[..])),
                             rd,
                             if tcp { "TCP" } else { "UDP" }
